@@ -113,6 +113,28 @@ func dumpOracle(c *Chain) []string {
 		it.Close()
 	}
 	out = append(out, "A "+strings.Join(as, ","))
+	// stored micro reports per round (query id, meta id): how many
+	cnt := map[string]int{}
+	var order []string
+	if it, err := c.App.OracleKeeper.Reports.Iterate(ctx, nil); err == nil {
+		for ; it.Valid(); it.Next() {
+			k, err := it.Key()
+			if err != nil {
+				continue
+			}
+			key := fmt.Sprintf("%s:%d", short(k.K1()), k.K3())
+			if cnt[key] == 0 {
+				order = append(order, key)
+			}
+			cnt[key]++
+		}
+		it.Close()
+	}
+	var ps []string
+	for _, k := range order {
+		ps = append(ps, fmt.Sprintf("%s:%d", k, cnt[k]))
+	}
+	out = append(out, "P "+strings.Join(ps, ","))
 	cur, err := c.App.OracleKeeper.GetCurrentQueryInCycleList(ctx)
 	seq, _ := c.App.OracleKeeper.CyclelistSequencer.Peek(ctx)
 	nid, _ := c.App.OracleKeeper.QuerySequencer.Peek(ctx)
@@ -413,7 +435,44 @@ func genOracleHist(r *Rng, i int, tier string) []string {
 	}
 	dep := 1
 	ndisp := 0
+	// long scenario (1 history in 5): a deposit round lives 2000 blocks; a second report arrives around its expiry
+	// height (two blocks before … one block after), later rounds of the same deposit follow
+	longAt := -1
+	if r.Chance(1, 4) {
+		longAt = r.Intn(nops)
+	}
+	depVal := func() string {
+		return DepositValue(sdk.AccAddress([]byte("recipient___________")).String(), bigOf(r.Range(1, 5000)*1e12), bigOf(0))
+	}
 	for k := 0; k < nops; k++ {
+		if k == longAt {
+			id := 7 + r.Intn(3)
+			if r.Chance(1, 3) {
+				add("tip a0 dep%d %d", id, r.Pick(1000, 50))
+			}
+			add("rep v0 dep%d %s", id, depVal())
+			add("blk 1000") // lands at height H
+			if r.Chance(1, 2) {
+				add("rep v1 dep%d %s", id, depVal())
+				add("blk 1000")
+				add("skip 1996 1000")
+			} else {
+				add("skip 1997 1000")
+			}
+			for j := r.Pick(2, 2, 2, 0, 1, 3); j > 0; j-- { // 2 = the report lands exactly at the expiry height
+				add("blk 1000")
+			}
+			add("rep v%d dep%d %s", r.Intn(2), id, depVal()) // lands at H+1998 … H+2001
+			add("blk 1000")
+			add("rep v%d dep%d %s", r.Intn(2), id, depVal())
+			add("blk 1000")
+			add("blk 1000")
+			if r.Chance(1, 2) {
+				add("skip 1999 1000")
+				add("blk 1000")
+				add("blk 1000")
+			}
+		}
 		acct := fmt.Sprintf("a%d", r.Intn(na))
 		rp := fmt.Sprintf("v%d", r.Intn(2))
 		q := fmt.Sprintf("q%d", r.Intn(5))
